@@ -60,8 +60,12 @@ struct Codec<std::vector<T, Allocator>>
     {
       // Built-in types (arithmetic or enum) don't require iteration.
       // Note: This excludes all trivially copyable types; e.g., std::string_view should not fall into this branch.
-      std::memcpy(buffer, arg.data(), sizeof(T) * arg.size());
-      buffer += sizeof(T) * arg.size();
+      if (!arg.empty())
+      {
+        // data() of an empty vector can be a nullptr, which must not be passed to memcpy
+        std::memcpy(buffer, arg.data(), sizeof(T) * arg.size());
+        buffer += sizeof(T) * arg.size();
+      }
     }
     else
     {
